@@ -229,7 +229,18 @@ def record_parse(text: str, dialect: str, templater: str, fname: str = "<string>
             events.append({"ev": "Crash", "stage": "parse", "exc": type(e).__name__, "msg": str(e)[:200], "tb": traceback.format_exc()[-600:]})
             out.append(dict(base, id=f"{tid}#v{k}", events=events))
             continue
-        ev = {"ev": "Parse", "toks": leaf_rows(tf, tokens, intern), "nprs": len(prs), "nlxr": len(lxr), "tree": tree is not None}
+        def _kind(desc: str) -> str:
+            d = (desc or "").lower()
+            if "maximum parse" in d:
+                return "limit"
+            if "bracket" in d:
+                return "bracket"
+            if "completeness" in d:
+                return "completeness"
+            return "other"
+
+        ev = {"ev": "Parse", "toks": leaf_rows(tf, tokens, intern), "nprs": len(prs), "nlxr": len(lxr), "tree": tree is not None,
+              "prs_kinds": sorted({_kind(v.desc()) for v in prs})}
         if tree is not None:
             ev["leaves"] = leaf_rows(tf, tree.raw_segments, intern)
             ev["nodes"] = node_rows(tree)
